@@ -153,6 +153,10 @@ func extReMustCompile(f *frame, cm *ssa.CallCommon, args []Val, st *State, name 
 			c.assume(st, fmt.Sprintf("(= (%s %s) %d)", nsub, r.T, sh.nsub))
 			c.assume(st, fmt.Sprintf("(= (%s %s) %s)", c.g.UF("re_pat", []string{SRef}, SStr), r.T, c.g.StrLit(constant.StringVal(k.Value))))
 			c.assume(st, fmt.Sprintf("(= (%s %s) %d)", minlen, r.T, sh.minLen))
+			if c.reShapes == nil {
+				c.reShapes = map[string]*reShape{}
+			}
+			c.reShapes[r.T] = sh
 			for i := 1; i <= sh.nsub; i++ {
 				if sh.mand[i] {
 					c.assume(st, fmt.Sprintf("(%s %s %d)", mand, r.T, i))
@@ -225,6 +229,15 @@ func extReFindAllStringSubmatchIndex(f *frame, cm *ssa.CallCommon, args []Val, s
 	lo, hi2 := at("i", "(* 2 k)"), at("i", "(+ (* 2 k) 1)")
 	c.assume(st, fmt.Sprintf("(forall ((i Int) (k Int)) (! (=> (and (<= 0 i) (< i (slen %s)) (<= 1 k) (<= k (%s %s))) (and (or (and (= %s (- 1)) (= %s (- 1))) (and (<= %s %s) (<= %s %s) (<= %s %s))) (=> (%s %s k) (>= %s 0)))) :pattern ((selem %s i) (%s %s k))))",
 		r.T, nsub, re, lo, hi2, at("i", "0"), lo, lo, hi2, hi2, at("i", "1"), mand, re, lo, r.T, mand, re))
+	// the same group facts, one quantifier per group, for a regexp compiled from a constant in this function: they fire on
+	// the match alone (the generic form above needs a re_mand term, which exists only for always-participating groups)
+	if sh := c.reShapes[re]; sh != nil && sh.nsub <= 8 {
+		for k := 1; k <= sh.nsub; k++ {
+			lo, hi2 := at("i", fmt.Sprint(2*k)), at("i", fmt.Sprint(2*k+1))
+			c.assume(st, fmt.Sprintf("(forall ((i Int)) (! (=> (and (<= 0 i) (< i (slen %s))) (or (and (= %s (- 1)) (= %s (- 1))) (and (<= %s %s) (<= %s %s) (<= %s %s)))) :pattern ((selem %s i))))",
+				r.T, lo, hi2, at("i", "0"), lo, lo, hi2, hi2, at("i", "1"), r.T))
+		}
+	}
 	// successive matches are ordered and do not overlap
 	c.assume(st, fmt.Sprintf("(forall ((i Int) (j Int)) (! (=> (and (<= 0 i) (< i j) (< j (slen %s))) (<= %s %s)) :pattern ((selem %s i) (selem %s j))))", r.T, at("i", "1"), at("j", "0"), r.T, r.T))
 	c.assumed[regexpAssumption] = true
